@@ -1,12 +1,1420 @@
-//! C16 - not built yet.
-use crate::run::Ctx;
-use serde_json::Value;
+//! C16 - non-ISO calendar fields describe the same day as the ISO date.
+//!
+//! Oracle: the ISO round trip and the successor invariant (no second calendar implementation). Per
+//! (calendar, ISO day n) the date is converted ONCE into its calendar fields and then judged in
+//! independent parts, each of which is its own replayable case (so a recorded defect in one part
+//! never hides another part of the same date):
+//!
+//! * sub `fields`  : `with_calendar` keeps iso y/m/d (both directions), 1 <= day <= days_in_month,
+//!                   1 <= month <= months_in_year, 1 <= day_of_year <= days_in_year, era present <=> eraYear
+//!                   present, month code well formed and consistent with `month` (ordinal month; in a
+//!                   13-month year of chinese/dangi/hebrew the ordinal is re-derived by walking the months
+//!                   of the year with day_of_year / days_in_month), leap-year flag consistent with the
+//!                   year length of the calendar family.
+//! * sub `succ`    : successor law between ISO day n and n+1.
+//! * sub `rebuild` : `PlainDate::from_partial` with {year|era+eraYear} x {monthCode|month} + day under both
+//!                   overflow modes returns the original ISO date in the same calendar.
+//! * sub `alias`   : every era alias (own table written from the intl-era-monthcode proposal) rebuilds
+//!                   the same date as the era name the calendar reports.
+//! * sub `ident`   : every ASCII case variant of every accepted identifier parses, reports the canonical
+//!                   lower-case identifier, and that identifier parses back to an equal calendar.
 
-pub fn run(_ctx: &mut Ctx) {
-    eprintln!("property C16 has no check yet");
-    std::process::exit(2);
+use crate::chk;
+use crate::conv::*;
+use crate::refm::civil::*;
+use crate::refm::dateadd::Ymd;
+use crate::run::*;
+use proptest::prelude::*;
+use serde::{Deserialize, Serialize};
+use serde_json::{json, Value};
+use std::collections::{BTreeMap, BTreeSet};
+use std::str::FromStr;
+use temporal_rs::options::ArithmeticOverflow;
+use temporal_rs::partial::PartialDate;
+use temporal_rs::{Calendar, MonthCode, PlainDate, TinyAsciiStr};
+
+// ------------------------------------------------------------------------------------------------
+// calendars
+
+#[derive(Clone, Copy, PartialEq, Eq, Debug, PartialOrd, Ord)]
+enum Cost {
+    /// arithmetic calendars (about a microsecond per conversion)
+    Cheap,
+    /// chinese / dangi: ~0.25 ms per conversion outside 1900-2100
+    Mid,
+    /// observational islamic / umm al-qura: 1.5 - 8 ms per conversion outside ~1880-2170
+    Exp,
 }
 
-pub fn replay(_ctx: &mut Ctx, _sub: &str, _case: &Value) -> bool {
+struct Kind {
+    id: &'static str,
+    cost: Cost,
+    /// leap months exist (month ordinal != month code number in leap years)
+    lunisolar: bool,
+}
+
+const KINDS: [Kind; 18] = [
+    Kind { id: "islamic", cost: Cost::Exp, lunisolar: false },
+    Kind { id: "islamic-umalqura", cost: Cost::Exp, lunisolar: false },
+    Kind { id: "chinese", cost: Cost::Mid, lunisolar: true },
+    Kind { id: "dangi", cost: Cost::Mid, lunisolar: true },
+    Kind { id: "buddhist", cost: Cost::Cheap, lunisolar: false },
+    Kind { id: "coptic", cost: Cost::Cheap, lunisolar: false },
+    Kind { id: "ethioaa", cost: Cost::Cheap, lunisolar: false },
+    Kind { id: "ethiopic", cost: Cost::Cheap, lunisolar: false },
+    Kind { id: "gregory", cost: Cost::Cheap, lunisolar: false },
+    Kind { id: "hebrew", cost: Cost::Cheap, lunisolar: true },
+    Kind { id: "indian", cost: Cost::Cheap, lunisolar: false },
+    Kind { id: "islamic-civil", cost: Cost::Cheap, lunisolar: false },
+    Kind { id: "islamic-tbla", cost: Cost::Cheap, lunisolar: false },
+    Kind { id: "iso8601", cost: Cost::Cheap, lunisolar: false },
+    Kind { id: "japanese", cost: Cost::Cheap, lunisolar: false },
+    Kind { id: "japanext", cost: Cost::Cheap, lunisolar: false },
+    Kind { id: "persian", cost: Cost::Cheap, lunisolar: false },
+    Kind { id: "roc", cost: Cost::Cheap, lunisolar: false },
+];
+const NKINDS: usize = 18;
+
+/// (accepted spelling, canonical identifier): ICU4X 2.0.0-beta2 `AnyCalendarKind::get_for_bcp47_bytes` + "iso8601"
+const IDENTS: [(&str, &str); 20] = [
+    ("buddhist", "buddhist"),
+    ("chinese", "chinese"),
+    ("coptic", "coptic"),
+    ("dangi", "dangi"),
+    ("ethioaa", "ethioaa"),
+    ("ethiopic", "ethiopic"),
+    ("gregory", "gregory"),
+    ("hebrew", "hebrew"),
+    ("indian", "indian"),
+    ("islamic", "islamic"),
+    ("islamic-civil", "islamic-civil"),
+    ("islamicc", "islamic-civil"),
+    ("islamic-tbla", "islamic-tbla"),
+    ("islamic-umalqura", "islamic-umalqura"),
+    ("iso", "iso8601"),
+    ("iso8601", "iso8601"),
+    ("japanese", "japanese"),
+    ("japanext", "japanext"),
+    ("persian", "persian"),
+    ("roc", "roc"),
+];
+
+fn kind_of(id: &str) -> Option<&'static Kind> {
+    KINDS.iter().find(|k| k.id == id)
+}
+
+/// Era alias classes per calendar, written from the intl-era-monthcode proposal (2024 table of era codes
+/// and aliases), independently of `era.rs`. Every name in a class must denote the same era.
+fn alias_classes(cal: &str) -> &'static [&'static [&'static str]] {
+    match cal {
+        "buddhist" => &[&["buddhist", "be"]],
+        "ethioaa" => &[&["ethioaa", "ethiopic-amete-alem", "mundi"]],
+        "ethiopic" => &[&["ethiopic", "incar"], &["ethioaa", "ethiopic-amete-alem", "mundi"]],
+        "gregory" => &[&["gregory", "ce", "ad"], &["gregory-inverse", "bce", "bc"]],
+        "hebrew" => &[&["hebrew", "am"]],
+        "indian" => &[&["indian", "saka"]],
+        "islamic" => &[&["islamic", "ah"]],
+        "islamic-civil" => &[&["islamic-civil", "islamicc", "ah"]],
+        "islamic-tbla" => &[&["islamic-tbla", "ah"]],
+        "islamic-umalqura" => &[&["islamic-umalqura", "ah"]],
+        "japanese" => &[&["japanese", "gregory", "ce", "ad"], &["japanese-inverse", "gregory-inverse", "bce", "bc"]],
+        "persian" => &[&["persian", "ap"]],
+        "roc" => &[&["roc", "minguo"], &["roc-inverse", "before-roc"]],
+        _ => &[],
+    }
+}
+
+fn aliases_of(cal: &str, era: &str) -> Vec<&'static str> {
+    for class in alias_classes(cal) {
+        if class.contains(&era) {
+            return class.iter().copied().filter(|a| *a != era).collect();
+        }
+    }
+    vec![]
+}
+
+// ------------------------------------------------------------------------------------------------
+// fields of one date
+
+#[derive(Clone, Debug, PartialEq, Serialize)]
+struct F {
+    y: i32,
+    m: u8,
+    code: String,
+    d: u8,
+    doy: u16,
+    dim: u16,
+    diy: u16,
+    miy: u16,
+    leap: bool,
+    era: Option<String>,
+    ey: Option<i32>,
+}
+
+fn mk(cal: &Calendar, n: i64) -> Result<PlainDate, String> {
+    let (y, m, d) = from_days(n);
+    PlainDate::try_new(y as i32, m, d, cal.clone()).map_err(|e| err_str(&e))
+}
+
+fn fields(p: &PlainDate) -> F {
+    F {
+        y: p.year(),
+        m: p.month(),
+        code: p.month_code().as_str().to_string(),
+        d: p.day(),
+        doy: p.day_of_year(),
+        dim: p.days_in_month(),
+        diy: p.days_in_year(),
+        miy: p.months_in_year(),
+        leap: p.in_leap_year(),
+        era: p.era().map(|e| e.as_str().to_string()),
+        ey: p.era_year(),
+    }
+}
+
+/// "Mnn" / "MnnL" -> (nn, leap)
+fn code_parts(code: &str) -> Option<(u8, bool)> {
+    let b = code.as_bytes();
+    if !(b.len() == 3 || b.len() == 4) || b[0] != b'M' || !b[1].is_ascii_digit() || !b[2].is_ascii_digit() {
+        return None;
+    }
+    if b.len() == 4 && b[3] != b'L' {
+        return None;
+    }
+    Some(((b[1] - b'0') * 10 + (b[2] - b'0'), b.len() == 4))
+}
+
+fn iso_year_of(n: i64) -> i64 {
+    from_days(n).0
+}
+
+/// far = outside ISO years -10000..=10000 (where the astronomical calendars of the library are known to
+/// trip their own debug assertions); a panic inside the core range is never excused.
+fn zone(n: i64) -> &'static str {
+    if iso_year_of(n).abs() > 10_000 {
+        "far"
+    } else {
+        "core"
+    }
+}
+
+fn panic_sig(cal: &str, n: i64, p: &str) -> String {
+    let loc = p.split(": ").next().unwrap_or("panic@?");
+    format!("C16/panic/{}/{}/{}", cal, zone(n), loc)
+}
+
+fn panic_outcome(cal: &str, n: i64, p: String) -> Outcome {
+    Outcome::pass().class("panic").fail(panic_sig(cal, n, &p), "no panic", p)
+}
+
+/// ordinal month of day n by walking the months of its calendar year: (ordinal, number of leap-coded
+/// months among months 1..=ordinal). Uses only day_of_year / days_in_month / month_code of the crate.
+fn walk_ordinal(cal: &Calendar, n: i64, f: &F) -> Result<(u8, u8), String> {
+    let mut s = n - (f.doy as i64 - 1);
+    let mut k = 1u8;
+    let mut leaps = 0u8;
+    loop {
+        if !date_in_range(s) {
+            return Err("year start outside the date range".into());
+        }
+        let p = mk(cal, s)?;
+        let dim = p.days_in_month() as i64;
+        if dim < 1 {
+            return Err(format!("days_in_month {dim} at day {s}"));
+        }
+        let code = p.month_code().as_str().to_string();
+        if code_parts(&code).map(|c| c.1).unwrap_or(false) {
+            leaps += 1;
+        }
+        if n < s + dim {
+            return Ok((k, leaps));
+        }
+        s += dim;
+        k += 1;
+        if k > 14 {
+            return Err("more than 14 months walked".into());
+        }
+    }
+}
+
+fn is_observational(k: &Kind) -> bool {
+    k.id == "islamic" || k.id == "islamic-umalqura"
+}
+
+/// defect model (dependency, table range of the two simulated Islamic calendars): when every month before
+/// month m has 30 days, day 30 of month m-1 (day_of_year 30*(m-1)) is reported as day 0 of month m
+fn day0_model(k: &Kind, f: &F) -> bool {
+    is_observational(k) && f.d == 0 && f.m >= 2 && f.doy == 30 * (f.m as u16 - 1) && code_parts(&f.code) == Some((f.m, false))
+}
+
+// ------------------------------------------------------------------------------------------------
+// part: fields
+
+fn part_fields(k: &Kind, cal: &Calendar, n: i64, p: &PlainDate, f: &F) -> Outcome {
+    let id = k.id;
+    let mut o = Outcome::pass();
+    let (y, m, d) = from_days(n);
+    let want = (y as i32, m, d);
+    // changing the calendar never changes the ISO date
+    chk!(o, (p.iso_year(), p.iso_month(), p.iso_day()) == want, format!("C16/fields/{id}/iso-fields"), want, (p.iso_year(), p.iso_month(), p.iso_day()));
+    chk!(o, p.calendar().identifier() == id, format!("C16/fields/{id}/calendar-id"), id, p.calendar().identifier());
+    match PlainDate::try_new(y as i32, m, d, iso()).and_then(|q| q.with_calendar(cal.clone())) {
+        Ok(q) => {
+            chk!(o, (q.iso_year(), q.iso_month(), q.iso_day()) == want && q.calendar().identifier() == id && &q == p,
+                format!("C16/fields/{id}/with_calendar"), want, (q.iso_year(), q.iso_month(), q.iso_day(), q.calendar().identifier()));
+        }
+        Err(e) => o = o.fail(format!("C16/fields/{id}/with_calendar/err"), "Ok", err_str(&e)),
+    }
+    match p.with_calendar(iso()) {
+        Ok(q) => {
+            chk!(o, (q.iso_year(), q.iso_month(), q.iso_day()) == want && q.calendar().identifier() == "iso8601" && (q.year(), q.month(), q.day()) == want,
+                format!("C16/fields/{id}/with_calendar-back"), want, (q.year(), q.month(), q.day()));
+        }
+        Err(e) => o = o.fail(format!("C16/fields/{id}/with_calendar-back/err"), "Ok", err_str(&e)),
+    }
+    // bounds
+    if f.d < 1 {
+        // defect model (dependency): see day0_model
+        let sig = if day0_model(k, f) { format!("C16/fields/{id}/day-30-of-month-reported-as-day-0-of-next-month") } else { format!("C16/fields/{id}/day<1") };
+        o = o.fail(sig, "day >= 1", format!("{f:?}"));
+    }
+    chk!(o, f.d as u16 <= f.dim, format!("C16/fields/{id}/day>days_in_month"), f.dim, f.d);
+    chk!(o, f.m >= 1, format!("C16/fields/{id}/month<1"), ">=1", f.m);
+    chk!(o, f.m as u16 <= f.miy, format!("C16/fields/{id}/month>months_in_year"), f.miy, f.m);
+    chk!(o, f.doy >= 1, format!("C16/fields/{id}/day_of_year<1"), ">=1", f.doy);
+    chk!(o, f.doy <= f.diy, format!("C16/fields/{id}/day_of_year>days_in_year"), f.diy, f.doy);
+    chk!(o, f.era.is_some() == f.ey.is_some(), format!("C16/fields/{id}/era-xor-eraYear"), "both or neither", (&f.era, f.ey));
+    // leap-year flag against the year length of the family
+    let want_leap = if k.lunisolar {
+        Some(f.miy == 13)
+    } else if f.diy == 365 || f.diy == 354 {
+        Some(false)
+    } else if f.diy == 366 || f.diy == 355 {
+        Some(true)
+    } else {
+        None
+    };
+    match want_leap {
+        Some(w) => chk!(o, f.leap == w, format!("C16/fields/{id}/leap-flag"), (w, f.diy, f.miy), f.leap),
+        // an unusual year length (observational calendars far from the present): flag not judged
+        None => o = o.class("unusual-year-length:leap-flag-not-judged"),
+    }
+    // month code
+    match code_parts(&f.code) {
+        None => o = o.fail(format!("C16/fields/{id}/month-code-form"), "Mnn or MnnL", f.code.clone()),
+        Some((num, leap)) => {
+            if !k.lunisolar || f.miy != 13 {
+                chk!(o, !leap, format!("C16/fields/{id}/month-code-leap-in-common-year"), "no L", f.code);
+                chk!(o, num == f.m, format!("C16/fields/{id}/month-code-number"), f.m, f.code);
+            } else if !o.failed() {
+                // ordinal by walking the months of the year
+                match guard(|| walk_ordinal(cal, n, f)) {
+                    Ok(Ok((ord, leaps))) => {
+                        chk!(o, num as i16 == ord as i16 - leaps as i16 && leaps <= 1, format!("C16/fields/{id}/month-code-vs-walk"), (ord, leaps), f.code);
+                        if !o.failed() && f.m != ord {
+                            // defect model: month() is the month-code number, not the ordinal
+                            let sig = if f.m == num && ord == num + 1 {
+                                format!("C16/fields/{id}/month-is-code-number-not-ordinal")
+                            } else {
+                                format!("C16/fields/{id}/month-ordinal")
+                            };
+                            o = o.fail(sig, format!("ordinal {ord} (code {}, walked)", f.code), f.m.to_string());
+                        }
+                    }
+                    Ok(Err(e)) => {
+                        // the year start lies outside the representable range: ordinal not derivable
+                        if e.contains("outside the date range") {
+                            o = o.class("ordinal-not-derivable");
+                        } else {
+                            o = o.fail(format!("C16/fields/{id}/month-walk"), "walkable year", e);
+                        }
+                    }
+                    Err(p) => o = o.fail(panic_sig(id, n, &p), "no panic", p),
+                }
+            }
+        }
+    }
+    o
+}
+
+// ------------------------------------------------------------------------------------------------
+// part: successor law
+
+fn succ_holds(a: &F, b: &F, am: u8, bm: u8) -> Result<&'static str, String> {
+    if b.y == a.y {
+        if b.doy != a.doy + 1 {
+            return Err(format!("same year: day_of_year {} -> {}", a.doy, b.doy));
+        }
+        if (b.diy, b.miy, b.leap) != (a.diy, a.miy, a.leap) {
+            return Err(format!("same year: (days_in_year, months_in_year, leap) {:?} -> {:?}", (a.diy, a.miy, a.leap), (b.diy, b.miy, b.leap)));
+        }
+        if b.code == a.code && bm == am {
+            if b.d != a.d + 1 {
+                return Err(format!("same month: day {} -> {}", a.d, b.d));
+            }
+            if b.dim != a.dim {
+                return Err(format!("same month: days_in_month {} -> {}", a.dim, b.dim));
+            }
+            return Ok("next-day");
+        }
+        // next month
+        if a.d as u16 != a.dim {
+            return Err(format!("month changed although day {} != days_in_month {}", a.d, a.dim));
+        }
+        if b.d != 1 {
+            return Err(format!("new month starts at day {}", b.d));
+        }
+        if bm != am + 1 {
+            return Err(format!("month {} -> {} (codes {} -> {})", am, bm, a.code, b.code));
+        }
+        let (an, al) = code_parts(&a.code).ok_or("bad code")?;
+        let (bn, bl) = code_parts(&b.code).ok_or("bad code")?;
+        let ok = if al { bn == an + 1 && !bl } else { (bn == an + 1 && !bl) || (bn == an && bl) };
+        if !ok {
+            return Err(format!("month code {} -> {}", a.code, b.code));
+        }
+        return Ok("next-month");
+    }
+    // next year
+    if b.y != a.y + 1 {
+        return Err(format!("year {} -> {}", a.y, b.y));
+    }
+    if a.d as u16 != a.dim || am as u16 != a.miy || a.doy != a.diy {
+        return Err(format!("year changed after month {}/{} day {}/{} day_of_year {}/{}", am, a.miy, a.d, a.dim, a.doy, a.diy));
+    }
+    if bm != 1 || b.d != 1 || b.doy != 1 || b.code != "M01" {
+        return Err(format!("new year starts at month {} ({}) day {} day_of_year {}", bm, b.code, b.d, b.doy));
+    }
+    Ok("next-year")
+}
+
+fn part_succ(k: &Kind, cal: &Calendar, n: i64, a: &F, b: &F) -> Outcome {
+    let id = k.id;
+    let mut o = Outcome::pass();
+    match succ_holds(a, b, a.m, b.m) {
+        Ok(c) => o = o.class(c),
+        Err(e) => {
+            // defect model: month() reports the month-code number instead of the ordinal (13-month years of
+            // lunisolar calendars). The law must hold with the walked ordinals, and both reported months must
+            // equal their code numbers.
+            let mut sig = format!("C16/succ/{id}/law");
+            if day0_model(k, b) && b.y == a.y && b.m == a.m + 1 && a.d == 29 && a.dim == 30 && b.doy == a.doy + 1 {
+                sig = format!("C16/succ/{id}/day-30-of-month-reported-as-day-0-of-next-month");
+            }
+            if k.lunisolar && (a.miy == 13 || b.miy == 13) {
+                let an = code_parts(&a.code).map(|c| c.0);
+                let bn = code_parts(&b.code).map(|c| c.0);
+                if an == Some(a.m) && bn == Some(b.m) {
+                    let wa = if a.miy == 13 { guard(|| walk_ordinal(cal, n, a)).ok().and_then(|r| r.ok()).map(|r| r.0) } else { Some(a.m) };
+                    let wb = if b.miy == 13 { guard(|| walk_ordinal(cal, n + 1, b)).ok().and_then(|r| r.ok()).map(|r| r.0) } else { Some(b.m) };
+                    if let (Some(wa), Some(wb)) = (wa, wb) {
+                        if (wa, wb) != (a.m, b.m) && succ_holds(a, b, wa, wb).is_ok() {
+                            sig = format!("C16/succ/{id}/month-is-code-number-not-ordinal");
+                        }
+                    }
+                }
+            }
+            o = o.fail(sig, "consecutive ISO days are consecutive calendar days", format!("{e}; a={a:?} b={b:?}"));
+        }
+    }
+    o
+}
+
+// ------------------------------------------------------------------------------------------------
+// part: rebuild
+
+pub const ROUTES: [&str; 4] = ["year+code", "year+month", "era+code", "era+month"];
+pub const OVERFLOWS: [&str; 2] = ["constrain", "reject"];
+
+fn overflow_of(s: &str) -> ArithmeticOverflow {
+    if s == "reject" {
+        ArithmeticOverflow::Reject
+    } else {
+        ArithmeticOverflow::Constrain
+    }
+}
+
+fn era19(s: &str) -> Option<TinyAsciiStr<19>> {
+    TinyAsciiStr::<19>::try_from_utf8(s.as_bytes()).ok()
+}
+
+fn partial_for(cal: &Calendar, f: &F, route: &str, era_override: Option<&str>) -> Option<PartialDate> {
+    let mut pd = PartialDate::new().with_day(Some(f.d)).with_calendar(cal.clone());
+    match route {
+        "year+code" | "year+month" => pd = pd.with_year(Some(f.y)),
+        _ => {
+            let era = era_override.or(f.era.as_deref())?;
+            pd = pd.with_era(Some(era19(era)?)).with_era_year(Some(f.ey?));
+        }
+    }
+    match route {
+        "year+code" | "era+code" => pd = pd.with_month_code(Some(MonthCode::from_str(&f.code).ok()?)),
+        _ => pd = pd.with_month(Some(f.m)),
+    }
+    Some(pd)
+}
+
+/// strips the numbers out of ICU4X range messages so that the signature is stable
+fn norm_msg(msg: &str) -> String {
+    if msg.starts_with("The ") && msg.contains(" argument is out of range") {
+        let field = msg.split(' ').nth(1).unwrap_or("?");
+        return format!("The {field} argument is out of range");
+    }
+    msg.to_string()
+}
+
+enum Rb {
+    Same,
+    Other(PlainDate),
+    Err(String, String),
+    Panic(String),
+}
+
+fn run_partial(pd: PartialDate, ov: ArithmeticOverflow, n: i64, id: &str) -> Rb {
+    match guard(|| PlainDate::from_partial(pd, Some(ov))) {
+        Err(p) => Rb::Panic(p),
+        Ok(Err(e)) => Rb::Err(kind_name(e.kind()).to_string(), e.message().to_string()),
+        Ok(Ok(q)) => {
+            if ymd_of(&q).n() == n && q.calendar().identifier() == id {
+                Rb::Same
+            } else {
+                Rb::Other(q)
+            }
+        }
+    }
+}
+
+fn part_rebuild(k: &Kind, cal: &Calendar, n: i64, f: &F, route: &str, overflow: &str) -> Outcome {
+    let id = k.id;
+    let mut o = Outcome::pass();
+    let by_era = route.starts_with("era");
+    let Some(pd) = partial_for(cal, f, route, None) else {
+        return o.fail(format!("C16/rebuild/{id}/{route}/fields-not-expressible"), "expressible fields", format!("{f:?}"));
+    };
+    let era_tag = if by_era && id != "japanext" { format!("by-era[{}]", f.era.as_deref().unwrap_or("?")) } else if by_era { "by-era".to_string() } else { "by-year".to_string() };
+    let want = Ymd::from_n(n);
+    match run_partial(pd, overflow_of(overflow), n, id) {
+        Rb::Same => {}
+        Rb::Panic(p) => o = o.fail(panic_sig(id, n, &p), "no panic", p),
+        Rb::Err(kind, msg) => {
+            let era_stage = msg.starts_with("Era is required")
+                || msg.starts_with("Invalid era provided")
+                || msg.starts_with("Unknown era")
+                || msg.starts_with("Year is not valid for the era");
+            let leap_code = code_parts(&f.code).map(|c| c.1).unwrap_or(false);
+            let sig = if era_stage {
+                format!("C16/rebuild/{id}/{era_tag}/{kind}:{}", norm_msg(&msg))
+            } else if msg.starts_with("MonthCode was not valid") || msg.starts_with("Unknown month code") {
+                // month-code validation does not depend on the route
+                format!("C16/rebuild/{id}/[{}]/{kind}:{}", f.code, norm_msg(&msg))
+            } else if !by_era && id == "ethioaa" && msg == "Date is not within ISO date time limits." && n - 2_008_875 < MIN_DAY + 30 {
+                // same defect as the wrong date below: 5500 years earlier is before the first representable day
+                format!("C16/rebuild/{id}/by-year/year-read-as-era-year")
+            } else if by_era
+                && id == "japanese"
+                && f.era.as_deref() == Some("taisho")
+                && f.ey == Some(1)
+                && (msg == format!("The month = {} argument is out of range 12..=12", f.m) || (f.m == 12 && msg == format!("The day = {} argument is out of range 25..=31", f.d)))
+            {
+                // Taisho 1 is validated as Showa 1 (which only has 1926-12-25..31)
+                format!("C16/rebuild/{id}/by-era[taisho]/built-as-showa")
+            } else if is_observational(k) && f.d == 0 && msg == format!("The day = 0 argument is out of range 1..={}", f.dim) {
+                format!("C16/rebuild/{id}/day-0-rejected")
+            } else if route.ends_with("month") && k.lunisolar && leap_code && f.d == 30 && msg == "The day = 30 argument is out of range 1..=29" {
+                // the leap month has 30 days, the regular month that month() points at has 29
+                format!("C16/rebuild/{id}/by-month/leap-month-resolves-to-regular-month")
+            } else {
+                format!("C16/rebuild/{id}/{route}/{kind}:{}", norm_msg(&msg))
+            };
+            o = o.fail(sig, format!("{want:?} in {id}"), format!("Err({kind}:{msg}) from {f:?}"));
+        }
+        Rb::Other(q) => {
+            let g = guard(|| fields(&q)).ok();
+            let mut sig = format!("C16/rebuild/{id}/{route}/wrong-date");
+            if let Some(g) = &g {
+                let leap_code = code_parts(&f.code).map(|c| c.1).unwrap_or(false);
+                if !by_era && id == "ethioaa" && g.ey == Some(f.y) && g.code == f.code && g.d == f.d {
+                    // the extended year reported by year() is read back as a year of the "ethioaa" era
+                    sig = format!("C16/rebuild/{id}/by-year/year-read-as-era-year");
+                } else if by_era && id == "japanese" && f.era.as_deref() == Some("taisho") && g.era.as_deref() == Some("showa") && g.ey == f.ey && g.code == f.code && g.d == f.d {
+                    sig = format!("C16/rebuild/{id}/by-era[taisho]/built-as-showa");
+                } else if route.ends_with("month") && leap_code && g.y == f.y && g.d == f.d && Some(g.code.as_str()) == f.code.strip_suffix('L') {
+                    // month() of a leap month is the number of the regular month of the same name
+                    sig = format!("C16/rebuild/{id}/by-month/leap-month-resolves-to-regular-month");
+                }
+            }
+            o = o.fail(sig, format!("{want:?} in {id}"), format!("{:?} in {} (fields {:?}) from {f:?}", ymd_of(&q), q.calendar().identifier(), g));
+        }
+    }
+    o
+}
+
+// ------------------------------------------------------------------------------------------------
+// part: alias
+
+fn part_alias(k: &Kind, cal: &Calendar, n: i64, f: &F, alias: &str) -> Outcome {
+    let id = k.id;
+    let mut o = Outcome::pass().class("alias");
+    let (Some(pa), Some(pc)) = (partial_for(cal, f, "era+code", Some(alias)), partial_for(cal, f, "era+code", None)) else {
+        return o.fail(format!("C16/alias/{id}/{alias}/fields-not-expressible"), "expressible fields", format!("{f:?}"));
+    };
+    let want = Ymd::from_n(n);
+    let ra = run_partial(pa, ArithmeticOverflow::Constrain, n, id);
+    if let Rb::Same = ra {
+        return o;
+    }
+    // the alias does not give the date: is that the alias, or does the reported era name itself fail the
+    // same way (then the `rebuild` part reports it and the alias law cannot be judged)?
+    let rc = run_partial(pc, ArithmeticOverflow::Constrain, n, id);
+    let same_failure = match (&ra, &rc) {
+        (Rb::Err(k1, m1), Rb::Err(k2, m2)) => k1 == k2 && m1 == m2,
+        (Rb::Other(a), Rb::Other(b)) => a == b,
+        (Rb::Panic(a), Rb::Panic(b)) => a.split(": ").next() == b.split(": ").next(),
+        _ => false,
+    };
+    if same_failure {
+        o.unjudged = true;
+        return o.class("alias-unjudged:reported-era-fails-identically");
+    }
+    let reported = f.era.as_deref().unwrap_or("?");
+    match ra {
+        Rb::Same => {}
+        Rb::Panic(p) => o = o.fail(panic_sig(id, n, &p), "no panic", p),
+        Rb::Err(kind, msg) => {
+            o = o.fail(format!("C16/alias/{id}/{alias}(={reported})/{kind}:{}", norm_msg(&msg)), format!("{want:?} in {id}"), format!("Err({kind}:{msg}) from {f:?}"))
+        }
+        Rb::Other(q) => o = o.fail(format!("C16/alias/{id}/{alias}(={reported})/wrong-date"), format!("{want:?} in {id}"), format!("{:?} from {f:?}", ymd_of(&q))),
+    }
+    o
+}
+
+// ------------------------------------------------------------------------------------------------
+// sub-checks (used by replay; the sweep evaluates the same part functions with shared fields)
+
+#[derive(Serialize, Deserialize, Debug, Clone)]
+pub struct DateCase {
+    pub cal: String,
+    pub n: i64,
+}
+#[derive(Serialize, Deserialize, Debug, Clone)]
+pub struct RebuildCase {
+    pub cal: String,
+    pub n: i64,
+    pub route: String,
+    pub overflow: String,
+}
+#[derive(Serialize, Deserialize, Debug, Clone)]
+pub struct AliasCase {
+    pub cal: String,
+    pub n: i64,
+    pub alias: String,
+}
+
+fn with_date(cal_id: &str, n: i64, f: impl FnOnce(&'static Kind, &Calendar, &PlainDate, &F) -> Outcome) -> Outcome {
+    let Some(k) = kind_of(cal_id) else {
+        return Outcome::pass().fail("C16/case/unknown-calendar", "a known calendar", cal_id);
+    };
+    let cal = match Calendar::from_str(k.id) {
+        Ok(c) => c,
+        Err(e) => return Outcome::pass().fail(format!("C16/ident/{}/rejected", k.id), "Ok", err_str(&e)),
+    };
+    if !date_in_range(n) {
+        return Outcome::pass().fail("C16/case/day-out-of-range", "day in range", n.to_string());
+    }
+    let p = match mk(&cal, n) {
+        Ok(p) => p,
+        Err(e) => return Outcome::pass().fail(format!("C16/fields/{}/construct", k.id), "Ok", e),
+    };
+    match guard(|| fields(&p)) {
+        Ok(fl) => f(k, &cal, &p, &fl),
+        Err(pn) => panic_outcome(k.id, n, pn),
+    }
+}
+
+pub struct FieldsSub;
+impl SubCheck for FieldsSub {
+    type Case = DateCase;
+    fn name(&self) -> &'static str {
+        "fields"
+    }
+    fn eval(&self, c: &DateCase) -> Outcome {
+        with_date(&c.cal, c.n, |k, cal, p, f| part_fields(k, cal, c.n, p, f))
+    }
+}
+pub struct SuccSub;
+impl SubCheck for SuccSub {
+    type Case = DateCase;
+    fn name(&self) -> &'static str {
+        "succ"
+    }
+    fn eval(&self, c: &DateCase) -> Outcome {
+        with_date(&c.cal, c.n, |k, cal, _p, f| {
+            if !date_in_range(c.n + 1) {
+                return Outcome::pass();
+            }
+            match mk(cal, c.n + 1).and_then(|q| guard(|| fields(&q))) {
+                Ok(g) => part_succ(k, cal, c.n, f, &g),
+                Err(pn) => panic_outcome(k.id, c.n + 1, pn),
+            }
+        })
+    }
+}
+pub struct RebuildSub;
+impl SubCheck for RebuildSub {
+    type Case = RebuildCase;
+    fn name(&self) -> &'static str {
+        "rebuild"
+    }
+    fn eval(&self, c: &RebuildCase) -> Outcome {
+        with_date(&c.cal, c.n, |k, cal, _p, f| part_rebuild(k, cal, c.n, f, &c.route, &c.overflow))
+    }
+}
+pub struct AliasSub;
+impl SubCheck for AliasSub {
+    type Case = AliasCase;
+    fn name(&self) -> &'static str {
+        "alias"
+    }
+    fn eval(&self, c: &AliasCase) -> Outcome {
+        with_date(&c.cal, c.n, |k, cal, _p, f| part_alias(k, cal, c.n, f, &c.alias))
+    }
+}
+
+// ------------------------------------------------------------------------------------------------
+// identifiers
+
+#[derive(Serialize, Deserialize, Debug, Clone)]
+pub struct IdentCase {
+    pub id: String,
+    /// bit i set = i-th ASCII letter of the identifier in upper case
+    pub mask: u32,
+}
+pub struct IdentSub;
+
+fn case_variant(id: &str, mask: u32) -> String {
+    let mut i = 0;
+    id.chars()
+        .map(|c| {
+            if c.is_ascii_alphabetic() {
+                let up = mask >> i & 1 == 1;
+                i += 1;
+                if up {
+                    c.to_ascii_uppercase()
+                } else {
+                    c
+                }
+            } else {
+                c
+            }
+        })
+        .collect()
+}
+
+impl SubCheck for IdentSub {
+    type Case = IdentCase;
+    fn name(&self) -> &'static str {
+        "ident"
+    }
+    fn eval(&self, c: &IdentCase) -> Outcome {
+        let mut o = Outcome::pass().nontrivial(c.mask != 0).class(if c.mask == 0 { "ident-lower" } else { "ident-mixed-case" });
+        let Some((_, canon)) = IDENTS.iter().find(|(a, _)| *a == c.id) else {
+            return o.fail("C16/case/unknown-identifier", "a listed identifier", c.id.clone());
+        };
+        let s = case_variant(&c.id, c.mask);
+        let a = match Calendar::from_str(&s) {
+            Ok(a) => a,
+            Err(e) => return o.fail(format!("C16/ident/{}/from_str-rejected", c.id), "Ok", format!("{s}: {}", err_str(&e))),
+        };
+        let b = match Calendar::from_utf8(s.as_bytes()) {
+            Ok(b) => b,
+            Err(e) => return o.fail(format!("C16/ident/{}/from_utf8-rejected", c.id), "Ok", format!("{s}: {}", err_str(&e))),
+        };
+        chk!(o, a.identifier() == *canon, format!("C16/ident/{}/identifier", c.id), canon, a.identifier());
+        chk!(o, b.identifier() == *canon && a == b, format!("C16/ident/{}/from_utf8-differs", c.id), canon, b.identifier());
+        chk!(o, a.identifier().bytes().all(|ch| !ch.is_ascii_uppercase()), format!("C16/ident/{}/identifier-not-lower-case", c.id), canon, a.identifier());
+        match Calendar::from_str(a.identifier()) {
+            Ok(back) => {
+                chk!(o, back == a && back.identifier() == a.identifier(), format!("C16/ident/{}/identifier-round-trip", c.id), a.identifier(), back.identifier());
+            }
+            Err(e) => o = o.fail(format!("C16/ident/{}/identifier-does-not-parse", c.id), "Ok", err_str(&e)),
+        }
+        chk!(o, a.is_iso() == (*canon == "iso8601"), format!("C16/ident/{}/is_iso", c.id), *canon == "iso8601", a.is_iso());
+        o
+    }
+}
+
+// ------------------------------------------------------------------------------------------------
+// anchors: ask the calendar where its eras / years / leap months change
+
+#[derive(Default, Clone, Debug)]
+struct CalInfo {
+    /// first ISO day of every era found (era string changes between n-1 and n)
+    era_starts: Vec<i64>,
+    /// first day with year() >= 1, and (single-era calendars) first day with era_year() >= 1
+    epochs: Vec<i64>,
+    /// first day of leap months found (lunisolar)
+    leap_months: Vec<i64>,
+    /// some new-year days
+    new_years: Vec<i64>,
+}
+
+fn probe<T>(cal: &Calendar, n: i64, f: impl FnOnce(&PlainDate) -> T) -> Option<T> {
+    let p = mk(cal, n).ok()?;
+    guard(|| f(&p)).ok()
+}
+
+/// smallest n in (lo, hi] with pred(n) true, given pred(lo) false and pred(hi) true (pred monotone in between)
+fn bisect(mut lo: i64, mut hi: i64, pred: &dyn Fn(i64) -> Option<bool>) -> Option<i64> {
+    while hi - lo > 1 {
+        let mid = lo + (hi - lo) / 2;
+        if pred(mid)? {
+            hi = mid;
+        } else {
+            lo = mid;
+        }
+    }
+    Some(hi)
+}
+
+fn derive_info(k: &Kind, cal: &Calendar) -> CalInfo {
+    let mut info = CalInfo::default();
+    let era = |n: i64| probe(cal, n, |p| p.era().map(|e| e.as_str().to_string()));
+    if k.cost == Cost::Cheap {
+        // era boundaries: fine scan of ISO years -1000..2300 and a coarse scan of the whole range
+        let mut scan = |lo: i64, hi: i64, step: i64| {
+            let mut n = lo;
+            let mut prev = era(n);
+            while n + step <= hi {
+                let next = era(n + step);
+                if next != prev {
+                    if let (Some(a), Some(_)) = (&prev, &next) {
+                        let a = a.clone();
+                        // the first change point inside (n, n+step]
+                        if let Some(b) = bisect(n, n + step, &|x| era(x).map(|e| e != a)) {
+                            info.era_starts.push(b);
+                        }
+                    }
+                }
+                prev = next;
+                n += step;
+            }
+        };
+        scan(to_days(-1000, 1, 1), to_days(2300, 1, 1), 20);
+        scan(MIN_DAY, MAX_DAY, 40_000);
+        info.era_starts.sort();
+        info.era_starts.dedup();
+    }
+    // epoch: first day of year 1
+    let (lo, hi) = (to_days(-8000, 1, 1), to_days(4000, 1, 1));
+    let year = |n: i64| probe(cal, n, |p| p.year());
+    if let (Some(a), Some(b)) = (year(lo), year(hi)) {
+        if a < 1 && b >= 1 {
+            if let Some(e) = bisect(lo, hi, &|x| year(x).map(|y| y >= 1)) {
+                info.epochs.push(e);
+            }
+        }
+    }
+    if info.era_starts.is_empty() && k.cost == Cost::Cheap {
+        let ey = |n: i64| probe(cal, n, |p| p.era_year()).flatten();
+        if let (Some(a), Some(b)) = (ey(lo), ey(hi)) {
+            if a < 1 && b >= 1 {
+                if let Some(e) = bisect(lo, hi, &|x| ey(x).map(|y| y >= 1)) {
+                    info.epochs.push(e);
+                }
+            }
+        }
+    }
+    info.epochs.sort();
+    info.epochs.dedup();
+    // new years and leap months by walking months
+    let starts: &[(i64, i64)] = if k.lunisolar { &[(2019, 75), (1000, 40), (-2000, 40)] } else { &[(2019, 26), (1000, 14)] };
+    for (y0, months) in starts {
+        let mut s = to_days(*y0, 1, 1);
+        // move to the first day of the month
+        let Some(d) = probe(cal, s, |p| p.day()) else { continue };
+        s -= d as i64 - 1;
+        for _ in 0..*months {
+            let Some((dim, code, doy)) = probe(cal, s, |p| (p.days_in_month(), p.month_code().as_str().to_string(), p.day_of_year())) else { break };
+            if dim == 0 || !date_in_range(s + dim as i64) {
+                break;
+            }
+            if doy == 1 && info.new_years.len() < 6 {
+                info.new_years.push(s);
+            }
+            if code.ends_with('L') {
+                info.leap_months.push(s);
+            }
+            s += dim as i64;
+        }
+    }
+    info
+}
+
+// ------------------------------------------------------------------------------------------------
+// the sweep
+
+#[derive(Default, Clone)]
+struct CalCount {
+    dates: u64,
+    part_cases: u64,
+    nontrivial_dates: u64,
+    panics: u64,
+    failing_part_cases: u64,
+}
+
+/// order used to pick representatives deterministically (independent of thread scheduling)
+fn case_key(case: &Value) -> (i64, String) {
+    (case["n"].as_i64().unwrap_or(0).abs(), case.to_string())
+}
+
+#[derive(Default)]
+struct LaneOut {
+    stats: Stats,
+    per_cal: BTreeMap<&'static str, CalCount>,
+    samples: BTreeMap<String, (&'static str, Value)>,
+    known: BTreeMap<String, (u64, &'static str, Value)>,
+    unknown: BTreeMap<(&'static str, String), (Value, Fail)>,
+}
+
+impl LaneOut {
+    fn merge(&mut self, o: LaneOut) {
+        self.stats.merge(o.stats);
+        for (k, c) in o.per_cal {
+            let e = self.per_cal.entry(k).or_default();
+            e.dates += c.dates;
+            e.part_cases += c.part_cases;
+            e.nontrivial_dates += c.nontrivial_dates;
+            e.panics += c.panics;
+            e.failing_part_cases += c.failing_part_cases;
+        }
+        for (k, v) in o.samples {
+            match self.samples.get(&k) {
+                Some(old) if case_key(&old.1) <= case_key(&v.1) => {}
+                _ => {
+                    self.samples.insert(k, v);
+                }
+            }
+        }
+        for (k, (cnt, sub, case)) in o.known {
+            match self.known.get_mut(&k) {
+                Some(old) => {
+                    old.0 += cnt;
+                    if case_key(&case) < case_key(&old.2) {
+                        old.1 = sub;
+                        old.2 = case;
+                    }
+                }
+                None => {
+                    self.known.insert(k, (cnt, sub, case));
+                }
+            }
+        }
+        for (k, v) in o.unknown {
+            match self.unknown.get(&k) {
+                Some(old) if case_key(&old.0) <= case_key(&v.0) => {}
+                _ => {
+                    self.unknown.insert(k, v);
+                }
+            }
+        }
+    }
+}
+
+fn record_part(ctx: &Ctx, out: &mut LaneOut, sub: &'static str, case: Value, o: Outcome, nontrivial: bool, classes: &[&'static str]) -> bool {
+    let st = &mut out.stats;
+    st.evaluations += 1;
+    if o.unjudged {
+        st.unjudged += 1;
+    }
+    for c in classes.iter().chain(o.classes.iter()) {
+        *st.classes.entry((*c).to_string()).or_default() += 1;
+    }
+    *st.classes.entry(format!("sub:{sub}")).or_default() += 1;
+    if nontrivial || o.nontrivial {
+        st.nontrivial_total += 1;
+        if st.distinct.len() < 4_000_000 {
+            st.distinct.insert(hash64(&serde_json::to_vec(&json!([sub, case])).unwrap()));
+        }
+        let key = format!("{sub}+{}", classes.join("+"));
+        match out.samples.get(&key) {
+            Some(old) if case_key(&old.1) <= case_key(&case) => {}
+            _ => {
+                out.samples.insert(key, (sub, case.clone()));
+            }
+        }
+    }
+    if let Some(f) = o.fail {
+        *st.classes.entry(format!("FAIL:{}", f.sig)).or_default() += 1;
+        if ctx.is_known(&f.sig).is_some() {
+            match out.known.get_mut(&f.sig) {
+                Some(old) => {
+                    old.0 += 1;
+                    if case_key(&case) < case_key(&old.2) {
+                        old.1 = sub;
+                        old.2 = case;
+                    }
+                }
+                None => {
+                    out.known.insert(f.sig.clone(), (1, sub, case));
+                }
+            }
+        } else {
+            let key = (sub, f.sig.clone());
+            match out.unknown.get(&key) {
+                Some(old) if case_key(&old.0) <= case_key(&case) => {}
+                _ => {
+                    out.unknown.insert(key, (case, f));
+                }
+            }
+        }
+        return true;
+    }
     false
+}
+
+struct Item {
+    kind: usize,
+    n: i64,
+}
+
+fn near_any(list: &[i64], n: i64, w: i64) -> bool {
+    // list is sorted
+    let i = list.partition_point(|x| *x < n - w);
+    i < list.len() && list[i] <= n + w
+}
+
+/// the region in which ICU4X has precomputed data for the astronomical calendars (conversions are cheap)
+fn modern(n: i64) -> bool {
+    (to_days(1905, 1, 1)..to_days(2095, 1, 1)).contains(&n)
+}
+
+fn eval_item(ctx: &Ctx, out: &mut LaneOut, k: &'static Kind, cal: &Calendar, info: &CalInfo, n: i64, cache: &mut Option<(usize, i64, F)>, kind_idx: usize) {
+    let id = k.id;
+    out.per_cal.entry(id).or_default().dates += 1;
+    let dcase = json!({"cal": id, "n": n});
+    // fields of day n (possibly cached from the previous item's successor)
+    let p = match mk(cal, n) {
+        Ok(p) => p,
+        Err(e) => {
+            let o = Outcome::pass().fail(format!("C16/fields/{id}/construct"), "Ok", e);
+            record_part(ctx, out, "fields", dcase, o, true, &[id]);
+            return;
+        }
+    };
+    if k.cost == Cost::Exp && zone(n) == "far" {
+        // light mode: beyond ISO years +-10000 one conversion of the simulated calendars can take seconds (or trips a
+        // debug assertion of the library), so only year / month code / day are read and one route is rebuilt
+        eval_item_light(ctx, out, k, cal, n, &p);
+        return;
+    }
+    let f = match cache.take() {
+        Some((ki, cn, f)) if ki == kind_idx && cn == n => Ok(f),
+        _ => guard(|| fields(&p)),
+    };
+    let f = match f {
+        Ok(f) => f,
+        Err(pn) => {
+            let cc = out.per_cal.get_mut(id).unwrap();
+            cc.panics += 1;
+            cc.part_cases += 1;
+            cc.failing_part_cases += 1;
+            record_part(ctx, out, "fields", dcase, panic_outcome(id, n, pn), true, &[id, zone_class(n)]);
+            return;
+        }
+    };
+    // non-triviality of the date
+    let mut classes: Vec<&'static str> = vec![id, zone_class(n)];
+    let near_year = f.doy <= 40 || f.diy.saturating_sub(f.doy) < 40;
+    let near_era = near_any(&info.era_starts, n, 40);
+    let year_lt1 = f.y < 1;
+    let own_leap = f.code.ends_with('L');
+    let mut near_leap = own_leap;
+    if k.lunisolar && f.miy == 13 && !own_leap {
+        for dn in [-40i64, 40] {
+            if date_in_range(n + dn) {
+                if let Some(c) = probe(cal, n + dn, |q| q.month_code().as_str().to_string()) {
+                    near_leap = near_leap || c.ends_with('L');
+                }
+            }
+        }
+    }
+    if near_year {
+        classes.push("near-new-year");
+    }
+    if near_era {
+        classes.push("near-era-boundary");
+    }
+    if year_lt1 {
+        classes.push("calendar-year<1");
+    }
+    if near_leap {
+        classes.push(if own_leap { "in-leap-month" } else { "near-leap-month" });
+    }
+    let nt = near_year || near_era || year_lt1 || near_leap;
+    let mut parts = 0u64;
+    let mut fails = 0u64;
+    // fields
+    let o = match guard(|| part_fields(k, cal, n, &p, &f)) {
+        Ok(o) => o,
+        Err(pn) => panic_outcome(id, n, pn),
+    };
+    parts += 1;
+    fails += record_part(ctx, out, "fields", dcase.clone(), o, nt, &classes) as u64;
+    // successor
+    if date_in_range(n + 1) {
+        let g = mk(cal, n + 1).and_then(|q| guard(|| fields(&q)));
+        let o = match &g {
+            Ok(g) => match guard(|| part_succ(k, cal, n, &f, g)) {
+                Ok(o) => o,
+                Err(pn) => panic_outcome(id, n, pn),
+            },
+            Err(pn) => panic_outcome(id, n + 1, pn.clone()),
+        };
+        parts += 1;
+        fails += record_part(ctx, out, "succ", dcase.clone(), o, nt, &classes) as u64;
+        if let Ok(g) = g {
+            *cache = Some((kind_idx, n + 1, g));
+        }
+    }
+    // rebuild: all 8 (route, overflow) combinations; for the two simulated calendars outside their table
+    // range (several ms per conversion) a rotating third of the combinations per day
+    let all = k.cost != Cost::Exp || modern(n);
+    let mut idx = 0i64;
+    for route in ROUTES {
+        for ov in OVERFLOWS {
+            idx += 1;
+            if route.starts_with("era") && f.era.is_none() {
+                continue;
+            }
+            if !all && (n + idx).rem_euclid(3) != 0 {
+                continue;
+            }
+            let o = match guard(|| part_rebuild(k, cal, n, &f, route, ov)) {
+                Ok(o) => o,
+                Err(pn) => panic_outcome(id, n, pn),
+            };
+            parts += 1;
+            let case = json!({"cal": id, "n": n, "route": route, "overflow": ov});
+            fails += record_part(ctx, out, "rebuild", case, o, nt, &classes) as u64;
+        }
+    }
+    // aliases
+    if let Some(era) = &f.era {
+        for (ai, alias) in aliases_of(id, era).into_iter().enumerate() {
+            if !all && (n + ai as i64).rem_euclid(2) != 0 {
+                continue;
+            }
+            let o = match guard(|| part_alias(k, cal, n, &f, alias)) {
+                Ok(o) => o,
+                Err(pn) => panic_outcome(id, n, pn),
+            };
+            parts += 1;
+            let case = json!({"cal": id, "n": n, "alias": alias});
+            fails += record_part(ctx, out, "alias", case, o, true, &classes) as u64;
+        }
+    }
+    let cc = out.per_cal.get_mut(id).unwrap();
+    cc.part_cases += parts;
+    cc.failing_part_cases += fails;
+    if nt {
+        cc.nontrivial_dates += 1;
+    }
+}
+
+fn eval_item_light(ctx: &Ctx, out: &mut LaneOut, k: &'static Kind, cal: &Calendar, n: i64, p: &PlainDate) {
+    let id = k.id;
+    let dcase = json!({"cal": id, "n": n});
+    let classes = [id, zone_class(n), "light-mode(simulated-calendar-beyond-year-10000)"];
+    let r = guard(|| (p.year(), p.month_code().as_str().to_string(), p.day()));
+    let cc = out.per_cal.get_mut(id).unwrap();
+    cc.part_cases += 1;
+    match r {
+        Err(pn) => {
+            cc.panics += 1;
+            cc.failing_part_cases += 1;
+            record_part(ctx, out, "fields", dcase, panic_outcome(id, n, pn), true, &classes);
+        }
+        Ok((y, code, d)) => {
+            cc.nontrivial_dates += 1;
+            let (iy, im, idd) = from_days(n);
+            let mut o = Outcome::pass();
+            o.unjudged = true; // only the ISO fields are compared here
+            chk!(o, (p.iso_year(), p.iso_month(), p.iso_day()) == (iy as i32, im, idd) && p.calendar().identifier() == id,
+                format!("C16/fields/{id}/iso-fields"), (iy, im, idd), (p.iso_year(), p.iso_month(), p.iso_day()));
+            record_part(ctx, out, "fields", dcase, o, true, &classes);
+            let m = code_parts(&code).map(|c| c.0).unwrap_or(0);
+            let f = F { y, m, code, d, doy: 0, dim: 0, diy: 0, miy: 0, leap: false, era: None, ey: None };
+            let o = match guard(|| part_rebuild(k, cal, n, &f, "year+code", "constrain")) {
+                Ok(o) => o,
+                Err(pn) => panic_outcome(id, n, pn),
+            };
+            let case = json!({"cal": id, "n": n, "route": "year+code", "overflow": "constrain"});
+            let failed = record_part(ctx, out, "rebuild", case, o, true, &classes);
+            let cc = out.per_cal.get_mut(id).unwrap();
+            cc.part_cases += 1;
+            cc.failing_part_cases += failed as u64;
+        }
+    }
+}
+
+fn zone_class(n: i64) -> &'static str {
+    if zone(n) == "far" {
+        "iso-year-beyond-10000"
+    } else {
+        "iso-year-within-10000"
+    }
+}
+
+/// far-zone days used for the two simulated Islamic calendars (measured: each returns or panics within seconds)
+const EXP_FAR_DAYS: [i64; 11] = [-90_000_000, -60_000_000, -12_000_000, -8_000_000, -5_000_000, 5_000_000, 8_000_000, 12_000_000, 30_000_000, 60_000_000, 90_000_000];
+
+fn push_window(v: &mut Vec<i64>, centre: i64, w: i64) {
+    for n in centre - w..=centre + w {
+        if date_in_range(n) {
+            v.push(n);
+        }
+    }
+}
+
+pub fn run(ctx: &mut Ctx) {
+    ctx.rule = "per calendar (17 non-ISO kinds + iso8601): ISO days = dense windows around every era start found by scanning the calendar's own era() (fine scan -1000..2300, coarse scan of the whole range), around the first day of year 1 / eraYear 1 (bisection on year()), around 0001-01-01, 1970-01-01, both range ends, around leap months and new years found by walking months (chinese/dangi/hebrew), + an even stride over the whole range + generated days (whole range / ISO years -10000..10000 / 1800..2200; for chinese, dangi, islamic, islamic-umalqura additionally many generated days in 1905..2095 where the library has precomputed data and conversions are cheap); budgets scaled by measured conversion cost (see cases_per_calendar). Each date is judged in parts: fields, succ, rebuild x 4 routes x 2 overflow modes, alias x every alias of the reported era; every part is one case. non-trivial = date within 40 days of an era start / of a calendar new year / of a leap month, or calendar year < 1, or (alias part) alias != reported era name; ident: mixed-case variants. Panics are caught per part and carry the signature C16/panic/<calendar>/<far|core>/<location>; 'core' (ISO years -10000..10000) is never listed.".into();
+    ctx.assumptions = vec![
+        "oracle: ISO round trip + successor invariant; month ordinal in 13-month lunisolar years re-derived by walking the year's months with the crate's own day_of_year/days_in_month (which the successor law checks locally)".into(),
+        "era alias table written from the 2024 intl-era-monthcode era table (not from era.rs); aliases are compared with the era name the calendar itself reports; when that name fails identically the alias case is unjudged (the rebuild part reports the failure)".into(),
+        "the leap-year flag is compared with the year length of the calendar family (13 months / 366 / 355 days); unusual year lengths of the simulated calendars are not judged".into(),
+        "weeks, date_add and date_until of non-ISO calendars are 'not yet implemented' in the crate and not part of the statement".into(),
+    ];
+    ctx.note("islamic and islamic-umalqura (ICU4X simulates the moon outside ~1901-2144): beyond ISO years +-10000 a single conversion takes from milliseconds to more than 15 s (islamic-umalqura at day number -21065627, ISO year about -55700, needed about 60 s for four conversions) or trips a debug assertion of the library; these two calendars are therefore swept densely only inside ISO years -10000..10000, the far zone is represented by both range ends and a fixed list of 11 days (EXP_FAR_DAYS) that are evaluated in a light mode (year, month code, day, one rebuild route). All other calendars are swept over the whole range. The panics found there are listed as findings by (calendar, location).");
+    ctx.note("for islamic / islamic-umalqura outside 1905..2095 and inside ISO years -10000..10000 a rotating third of the 8 rebuild combinations and half of the aliases are evaluated per day (every combination is covered on consecutive days of the dense windows)");
+    let tier = ctx.tier;
+
+    // ---- identifiers: every case variant (exhaustive)
+    let mut ident_cases: Vec<IdentCase> = vec![];
+    for (id, _) in IDENTS {
+        let letters = id.chars().filter(|c| c.is_ascii_alphabetic()).count() as u32;
+        for mask in 0..(1u32 << letters) {
+            ident_cases.push(IdentCase { id: id.to_string(), mask });
+        }
+    }
+    let ic = &ident_cases;
+    ctx.run_enum(&IdentSub, ic.len() as u64, &|i| ic[i as usize].clone(), true);
+    ctx.stats.samples.truncate(3);
+
+    // ---- calendars and their anchors
+    let cals: Vec<Calendar> = KINDS.iter().map(|k| Calendar::from_str(k.id).expect("calendar id")).collect();
+    let mut infos: Vec<CalInfo> = vec![CalInfo::default(); NKINDS];
+    std::thread::scope(|sc| {
+        let hs: Vec<_> = (0..NKINDS)
+            .map(|i| {
+                let cal = &cals[i];
+                sc.spawn(move || derive_info(&KINDS[i], cal))
+            })
+            .collect();
+        for (i, h) in hs.into_iter().enumerate() {
+            infos[i] = h.join().expect("derive_info");
+        }
+    });
+    let mut anchors_json = serde_json::Map::new();
+    for i in 0..NKINDS {
+        let show = |v: &Vec<i64>| -> Vec<String> {
+            v.iter()
+                .take(12)
+                .map(|n| {
+                    let (y, m, d) = from_days(*n);
+                    format!("{y:04}-{m:02}-{d:02}")
+                })
+                .collect()
+        };
+        anchors_json.insert(
+            KINDS[i].id.to_string(),
+            json!({"era_starts_found": infos[i].era_starts.len(), "era_starts_first12": show(&infos[i].era_starts), "epochs": show(&infos[i].epochs),
+                   "leap_month_starts": show(&infos[i].leap_months), "new_years": show(&infos[i].new_years)}),
+        );
+    }
+    ctx.extra.insert("anchors_derived_from_the_calendars".into(), Value::Object(anchors_json));
+
+    // ---- the dates per calendar
+    let mut items: Vec<Item> = vec![];
+    for (ki, k) in KINDS.iter().enumerate() {
+        let info = &infos[ki];
+        let mut v: Vec<i64> = vec![];
+        let many = info.era_starts.len() > 12;
+        // (window in the cheap region, window in the expensive region, stride points, generated days, generated modern days)
+        let (w_near, w_far, n_stride, n_rand, n_modern): (i64, i64, u64, u64, u64) = match k.cost {
+            Cost::Cheap => (if many { tier.pick(45, 400) as i64 } else { 400 }, if many { tier.pick(45, 400) as i64 } else { 400 }, tier.pick(5000, 60_000), tier.pick(10_000, 150_000), 0),
+            Cost::Mid => (400, tier.pick(60, 250) as i64, tier.pick(400, 3000), tier.pick(800, 6000), tier.pick(6000, 100_000)),
+            Cost::Exp => (400, tier.pick(30, 120) as i64, tier.pick(24, 160), tier.pick(100, 600), tier.pick(12_000, 200_000)),
+        };
+        let w = |n: i64| if k.cost == Cost::Cheap || modern(n) { w_near } else { w_far };
+        for &a in info.era_starts.iter().chain(info.epochs.iter()) {
+            push_window(&mut v, a, w(a));
+        }
+        push_window(&mut v, to_days(1970, 1, 1), w_near);
+        push_window(&mut v, to_days(1, 1, 1), if k.cost == Cost::Exp { w_far / 2 } else { w(to_days(1, 1, 1)) });
+        for &a in info.new_years.iter().take(4) {
+            push_window(&mut v, a, w(a).min(if k.cost == Cost::Cheap { 60 } else { 45 }));
+        }
+        // leap months: the first ones of every walk, at least 300 days apart
+        let leap_take = match k.cost {
+            Cost::Cheap => 6,
+            _ => tier.pick(4, 8) as usize,
+        };
+        let mut taken = 0;
+        let mut last: Option<i64> = None;
+        for &a in &info.leap_months {
+            if taken >= leap_take {
+                break;
+            }
+            if last.map(|l| (a - l).abs() < 300).unwrap_or(false) {
+                continue;
+            }
+            push_window(&mut v, a, w(a).min(if modern(a) || k.cost == Cost::Cheap { 120 } else { 40 }));
+            last = Some(a);
+            taken += 1;
+        }
+        // both range ends
+        let w_end = if k.cost == Cost::Cheap { 40 } else { 2 };
+        push_window(&mut v, MIN_DAY, w_end);
+        push_window(&mut v, MAX_DAY, w_end);
+        // stride over the whole range (offset depends on the seed). The two simulated Islamic calendars are the
+        // exception: beyond ISO years +-10000 a single conversion can take from milliseconds to more than 15 s
+        // (islamic-umalqura at day -21065627 needed ~60 s for four conversions) or trip a debug assertion, so
+        // their stride and generated days stay inside ISO years -10000..10000 and the far zone is represented by
+        // both range ends and a fixed list of days that were measured to return or panic within seconds.
+        let (s_lo, s_hi) = if k.cost == Cost::Exp { (to_days(-10_000, 1, 1), to_days(10_000, 12, 31)) } else { (MIN_DAY, MAX_DAY) };
+        let span = (s_hi - s_lo) as i128;
+        let off = (ctx.sub_seed(k.id, 0) % 1000) as i128;
+        for i in 0..n_stride {
+            let n = s_lo as i128 + (i as i128 * 1000 + off) * span / (n_stride as i128 * 1000);
+            v.push(n as i64);
+        }
+        if k.cost == Cost::Exp {
+            v.extend(EXP_FAR_DAYS);
+        }
+        // generated days
+        let strat = prop_oneof![
+            3 => s_lo..=s_hi,
+            4 => to_days(-10_000, 1, 1)..=to_days(10_000, 12, 31),
+            3 => to_days(1800, 1, 1)..=to_days(2200, 1, 1),
+        ];
+        v.extend(sample_strategy(&strat, ctx.sub_seed(k.id, 1), n_rand as usize));
+        if n_modern > 0 {
+            let strat = to_days(1905, 1, 1)..to_days(2095, 1, 1);
+            v.extend(sample_strategy(&strat, ctx.sub_seed(k.id, 2), n_modern as usize));
+        }
+        v.sort();
+        v.dedup();
+        items.extend(v.into_iter().map(|n| Item { kind: ki, n }));
+    }
+    // chunks of consecutive items of one calendar; expensive chunks first; lanes take the next chunk when free.
+    // Which lane evaluates a chunk does not influence any reported number or representative (see case_key).
+    let lanes = ctx.threads.max(1);
+    let mut chunks: Vec<(u8, &[Item])> = vec![];
+    {
+        let mut i = 0;
+        while i < items.len() {
+            let kind = items[i].kind;
+            let cheap_here = KINDS[kind].cost == Cost::Cheap || modern(items[i].n);
+            let (rank, size) = match (KINDS[kind].cost, cheap_here) {
+                (Cost::Exp, false) => (0, 2),
+                (Cost::Mid, false) => (1, 8),
+                _ => (2, 64),
+            };
+            let mut j = i;
+            while j < items.len() && items[j].kind == kind && j - i < size && (KINDS[kind].cost == Cost::Cheap || modern(items[j].n) == modern(items[i].n)) {
+                j += 1;
+            }
+            chunks.push((rank, &items[i..j]));
+            i = j;
+        }
+        chunks.sort_by_key(|c| c.0);
+    }
+    let mut total = LaneOut::default();
+    {
+        let this: &Ctx = ctx;
+        let chunks = &chunks;
+        let cals = &cals;
+        let infos = &infos;
+        let next = std::sync::atomic::AtomicUsize::new(0);
+        let next = &next;
+        std::thread::scope(|sc| {
+            let hs: Vec<_> = (0..lanes)
+                .map(|lane| {
+                    sc.spawn(move || {
+                        set_lane(lane);
+                        let mut out = LaneOut::default();
+                        let mut cache: Option<(usize, i64, F)> = None;
+                        loop {
+                            let ci = next.fetch_add(1, std::sync::atomic::Ordering::Relaxed);
+                            if ci >= chunks.len() {
+                                break;
+                            }
+                            for it in chunks[ci].1.iter() {
+                                beat_start();
+                                eval_item(this, &mut out, &KINDS[it.kind], &cals[it.kind], &infos[it.kind], it.n, &mut cache, it.kind);
+                                beat_end();
+                            }
+                            cache = None;
+                        }
+                        out
+                    })
+                })
+                .collect();
+            for h in hs {
+                total.merge(h.join().expect("lane"));
+            }
+        });
+    }
+    let LaneOut { stats, per_cal, samples, known, unknown } = total;
+    ctx.absorb("sweep", stats, None);
+    for (sig, (cnt, sub, case)) in known {
+        let e = ctx.stats.known_hits.entry(sig).or_insert((0, json!({"sub": sub, "case": case})));
+        e.0 += cnt;
+    }
+    for ((sub, _sig), (case, fail)) in unknown {
+        ctx.absorb(sub, Stats::default(), Some((case, fail)));
+    }
+    // written-out samples: per sub-check the (sub, class combination) representatives with the most class labels
+    // first (boundary cases), 6 per sub-check
+    let mut by_sub: BTreeMap<&'static str, Vec<(usize, Value)>> = BTreeMap::new();
+    for (key, (sub, case)) in samples {
+        by_sub.entry(sub).or_default().push((key.matches('+').count(), case));
+    }
+    for (sub, mut v) in by_sub {
+        v.sort_by_key(|(labels, c)| (std::cmp::Reverse(*labels), case_key(c)));
+        for (_, case) in v.into_iter().take(6) {
+            ctx.stats.samples.push(json!({"sub": sub, "case": case}));
+        }
+    }
+    let mut pc = serde_json::Map::new();
+    let mut starved: BTreeSet<&str> = BTreeSet::new();
+    for k in KINDS.iter() {
+        let c = per_cal.get(k.id).cloned().unwrap_or_default();
+        if c.dates == 0 || c.nontrivial_dates == 0 {
+            starved.insert(k.id);
+        }
+        pc.insert(
+            k.id.to_string(),
+            json!({"dates": c.dates, "part_cases": c.part_cases, "nontrivial_dates": c.nontrivial_dates,
+                   "dates_whose_getters_panicked": c.panics, "failing_part_cases": c.failing_part_cases,
+                   "cost_class": format!("{:?}", k.cost)}),
+        );
+    }
+    ctx.extra.insert("cases_per_calendar".into(), Value::Object(pc));
+    if !starved.is_empty() {
+        ctx.note(format!("generator starved for calendars {starved:?}"));
+        println!("INCONCLUSIVE property=C16 generator starved for {starved:?}");
+        std::process::exit(2);
+    }
+}
+
+pub fn replay(ctx: &mut Ctx, sub: &str, case: &Value) -> bool {
+    match sub {
+        "fields" => ctx.replay_case(&FieldsSub, case),
+        "succ" => ctx.replay_case(&SuccSub, case),
+        "rebuild" => ctx.replay_case(&RebuildSub, case),
+        "alias" => ctx.replay_case(&AliasSub, case),
+        "ident" => ctx.replay_case(&IdentSub, case),
+        _ => false,
+    }
 }
